@@ -13,7 +13,7 @@ abstract `Game`, exploration, leaf evaluation, depth and window.
 The hypotheses about draws and hashes are **not** stated for the whole state type `P` (for `P = World`, the state
 type of the chess game `boardGame` / `materialGame`, junk worlds make such global statements false) but on a
 **region** `R : Nat → P → Prop`: `R n q` = "the search may visit `q` with remaining depth `n`". A region must be
-`Closed g ex R`: an explored legal move (`m ∈ g.moves p`, `ex.pick m`, `g.push p m = some c`) from a position of
+`Closed g ex R`: an explored legal move (`m ∈ g.moves p`, `(ex p).pick m`, `g.push p m = some c`) from a position of
 `R (n+1)` leads into `R n`; and it must contain the root at the depth of the search (`R d p`). The smallest such
 region is the search tree `Tree g ex p d` (`Tree g ex p d n q` iff `q` is reached from `p` by `d - n` explored legal
 moves; `tree_closed`, `tree_root`, `tree_least`); for a sequence of searches it is the union `Trees g ex l` of their
@@ -52,12 +52,12 @@ open Morlock.Props.C09
 variable {P : Type}
 
 /-- A fresh table of any size is sound (on every region). -/
-theorem fresh_sound_on (g : Game P) (ex : Explore) (le : LeafEval) (R : Nat → P → Prop) (size : Nat) (minDepth : Int) :
+theorem fresh_sound_on (g : Game P) (ex : P → Explore) (le : LeafEval P) (R : Nat → P → Prop) (size : Nat) (minDepth : Int) :
     SoundOn g ex le R (TTState.new size minDepth) :=
   soundOn_new g ex le R size minDepth
 
 /-- A fresh table of any size is sound. -/
-theorem fresh_sound (g : Game P) (ex : Explore) (le : LeafEval) (size : Nat) (minDepth : Int) :
+theorem fresh_sound (g : Game P) (ex : P → Explore) (le : LeafEval P) (size : Nat) (minDepth : Int) :
     Sound g ex le (TTState.new size minDepth) :=
   sound_new g ex le size minDepth
 
@@ -72,7 +72,7 @@ theorem fresh_sound (g : Game P) (ex : Explore) (le : LeafEval) (size : Nat) (mi
         case the exact `V` or at least `alpha`;
     (3) returns a PV that is a path of explored legal moves of length `≤ d` (possibly cut short by table
         hits), and a principal variation whenever the returned score is exact. -/
-theorem sound_preserved_on (g : Game P) (ex : Explore) (le : LeafEval) (rootPly : Int) (hev : EvalOk g)
+theorem sound_preserved_on (g : Game P) (ex : P → Explore) (le : LeafEval P) (rootPly : Int) (hev : EvalOk g)
     {R : Nat → P → Prop} (hcl : Closed g ex R)
     (hh : HashOKOn g ex le R) (hrf : RootFreeOn g R rootPly) (K d : Nat) (hK : leafGrade le ≤ K) (hKd : K + d ≤ 127)
     (p : P) (hp : R d p) (alpha beta : Score) (st : SState) (hs : SoundOn g ex le R st.tt) (hc : st.cancelAt = none)
@@ -96,7 +96,7 @@ theorem sound_preserved_on (g : Game P) (ex : Explore) (le : LeafEval) (rootPly 
 /-- **C11 (stored entries).** After such a search every exact entry `e` of the table — those it found and
     those it stored — satisfies `e.score = V g ex le rootPly e.depth q` for every position `q` of the region at
     remaining depth `e.depth` with `g.hash q = e.hash`: the true search value of that position at that depth. -/
-theorem stored_exact_on (g : Game P) (ex : Explore) (le : LeafEval) (rootPly : Int) (hev : EvalOk g)
+theorem stored_exact_on (g : Game P) (ex : P → Explore) (le : LeafEval P) (rootPly : Int) (hev : EvalOk g)
     {R : Nat → P → Prop} (hcl : Closed g ex R)
     (hh : HashOKOn g ex le R) (hrf : RootFreeOn g R rootPly) (K d : Nat) (hK : leafGrade le ≤ K) (hKd : K + d ≤ 127)
     (p : P) (hp : R d p) (alpha beta : Score) (st : SState) (hs : SoundOn g ex le R st.tt) (hc : st.cancelAt = none)
@@ -111,7 +111,7 @@ theorem stored_exact_on (g : Game P) (ex : Explore) (le : LeafEval) (rootPly : I
 /-- **C11 (transparency).** At the full window the search over any table that is sound on the region returns
     exactly `V` — the same root score as the search without a table (`st0`: no table, no cancellation;
     `C03.exact`). -/
-theorem transparent_on (g : Game P) (ex : Explore) (le : LeafEval) (rootPly : Int) (hev : EvalOk g)
+theorem transparent_on (g : Game P) (ex : P → Explore) (le : LeafEval P) (rootPly : Int) (hev : EvalOk g)
     {R : Nat → P → Prop} (hcl : Closed g ex R)
     (hh : HashOKOn g ex le R) (hrf : RootFreeOn g R rootPly) (d : Nat) (hd : leafGrade le + d ≤ 127)
     (p : P) (hp : R d p) (st : SState) (hs : SoundOn g ex le R st.tt) (hc : st.cancelAt = none)
@@ -131,13 +131,13 @@ theorem transparent_on (g : Game P) (ex : Explore) (le : LeafEval) (rootPly : In
     `m :: rest` then `m` leads to a child `c` with `lift (V … d' c) = V … (d' + 1) p`. And at the root ply
     (where no table cut is taken) it is non-empty whenever some move is legal and the value is not `negInf`
     (i.e. some explored legal move is better than being mated at once). -/
-theorem pv_first_best_on (g : Game P) (ex : Explore) (le : LeafEval) (rootPly : Int) (hev : EvalOk g)
+theorem pv_first_best_on (g : Game P) (ex : P → Explore) (le : LeafEval P) (rootPly : Int) (hev : EvalOk g)
     {R : Nat → P → Prop} (hcl : Closed g ex R)
     (hh : HashOKOn g ex le R) (hrf : RootFreeOn g R rootPly) (d : Nat) (hd : leafGrade le + d ≤ 127)
     (p : P) (hp : R d p) (st : SState) (hs : SoundOn g ex le R st.tt) (hc : st.cancelAt = none) :
     Principal g ex le rootPly d p (alphabeta g ex le rootPly d p negInfScore infScore st).2.1 ∧
     (∀ d' m rest, d = d' + 1 → (alphabeta g ex le rootPly d p negInfScore infScore st).2.1 = m :: rest →
-      ∃ c, g.push p m = some c ∧ ex.pick m = true ∧
+      ∃ c, g.push p m = some c ∧ (ex p).pick m = true ∧
         lift (V g ex le rootPly d' c) = V g ex le rootPly (d' + 1) p) ∧
     (∀ d', d = d' + 1 → g.ply p = rootPly → legalAny g p (g.moves p) = true →
       V g ex le rootPly d p ≠ negInfScore →
@@ -165,7 +165,7 @@ theorem pv_first_best_on (g : Game P) (ex : Explore) (le : LeafEval) (rootPly : 
     sound on the region and without cancellation, `alphaBetaSearch` reports the negamax value of the root and a
     principal variation (non-empty for `d ≥ 1` if a move is legal and the value is not `negInf`), and leaves a table
     that is sound on the region and no cancellation behind. -/
-theorem search_exact_on (g : Game P) (ex : Explore) (le : LeafEval) (hev : EvalOk g)
+theorem search_exact_on (g : Game P) (ex : P → Explore) (le : LeafEval P) (hev : EvalOk g)
     {R : Nat → P → Prop} (hcl : Closed g ex R) (hh : HashOKOn g ex le R)
     (p : P) (hrf : RootFreeOn g R (g.ply p)) (d : Nat) (hd : leafGrade le + d ≤ 127) (hp : R d p)
     (st : SState) (hs : SoundOn g ex le R st.tt) (hc : st.cancelAt = none) :
@@ -186,7 +186,7 @@ theorem search_exact_on (g : Game P) (ex : Explore) (le : LeafEval) (hev : EvalO
     negamax value `V` of its own root at its own depth, exactly what the table-free search returns
     (`C03.search_exact`); the table is sound at the end. The region `U` on which the table is sound and hashes are
     faithful contains the trees of all the searches; the root-ply condition is needed on each search's own tree. -/
-theorem sequence_on (g : Game P) (ex : Explore) (le : LeafEval) (hev : EvalOk g) {U : Nat → P → Prop}
+theorem sequence_on (g : Game P) (ex : P → Explore) (le : LeafEval P) (hev : EvalOk g) {U : Nat → P → Prop}
     (hh : HashOKOn g ex le U)
     (l : List (P × Nat)) (st : SState) (hs : SoundOn g ex le U st.tt) (hc : st.cancelAt = none)
     (hall : ∀ pd ∈ l, (∀ n q, Tree g ex pd.1 pd.2 n q → U n q) ∧
@@ -197,7 +197,7 @@ theorem sequence_on (g : Game P) (ex : Explore) (le : LeafEval) (hev : EvalOk g)
   searchSeq_tt hev ex le hh l st hs hc hall
 
 /-- `sequence_on` for the union of the trees of the searches, when no position of that union is drawn. -/
-theorem sequence_trees (g : Game P) (ex : Explore) (le : LeafEval) (hev : EvalOk g)
+theorem sequence_trees (g : Game P) (ex : P → Explore) (le : LeafEval P) (hev : EvalOk g)
     (l : List (P × Nat)) (hh : HashOKOn g ex le (Trees g ex l)) (hnd : NoDrawOn g (Trees g ex l))
     (st : SState) (hs : SoundOn g ex le (Trees g ex l) st.tt) (hc : st.cancelAt = none)
     (hall : ∀ pd ∈ l, leafGrade le + pd.2 ≤ 127) :
@@ -210,7 +210,7 @@ theorem sequence_trees (g : Game P) (ex : Explore) (le : LeafEval) (hev : EvalOk
 
 /-- Under `RootFreeOn` the value is determined by the position: the `rootPly` argument of `V` is irrelevant inside
     the region. -/
-theorem V_root_irrelevant_on (g : Game P) (ex : Explore) (le : LeafEval) (r r' : Int) {R : Nat → P → Prop}
+theorem V_root_irrelevant_on (g : Game P) (ex : P → Explore) (le : LeafEval P) (r r' : Int) {R : Nat → P → Prop}
     (hcl : Closed g ex R) (h : RootFreeOn g R r) (h' : RootFreeOn g R r') (d : Nat) (p : P) (hp : R d p) :
     V g ex le r d p = V g ex le r' d p := by
   rw [V_eq_V'_on ex le hcl h d p hp, V_eq_V'_on ex le hcl h' d p hp]
@@ -220,7 +220,7 @@ theorem V_root_irrelevant_on (g : Game P) (ex : Explore) (le : LeafEval) (r r' :
 `HashOK`, `RootFree`, `NoDraw`, `Sound` quantify over the whole state type; for `P = World` they are false, so these
 forms say nothing about the chess game - use the `…_on` forms there. -/
 
-theorem sound_preserved (g : Game P) (ex : Explore) (le : LeafEval) (rootPly : Int) (hev : EvalOk g)
+theorem sound_preserved (g : Game P) (ex : P → Explore) (le : LeafEval P) (rootPly : Int) (hev : EvalOk g)
     (hh : HashOK g ex le) (hrf : RootFree g rootPly) (K d : Nat) (hK : leafGrade le ≤ K) (hKd : K + d ≤ 127)
     (p : P) (alpha beta : Score) (st : SState) (hs : Sound g ex le st.tt) (hc : st.cancelAt = none)
     (ha : okN (K + d) alpha) (hb : okN (K + d) beta) :
@@ -238,7 +238,7 @@ theorem sound_preserved (g : Game P) (ex : Explore) (le : LeafEval) (rootPly : I
     p trivial alpha beta st (sound_iff_on.1 hs) hc ha hb
   exact ⟨sound_iff_on.2 h1, h2⟩
 
-theorem stored_exact (g : Game P) (ex : Explore) (le : LeafEval) (rootPly : Int) (hev : EvalOk g)
+theorem stored_exact (g : Game P) (ex : P → Explore) (le : LeafEval P) (rootPly : Int) (hev : EvalOk g)
     (hh : HashOK g ex le) (hrf : RootFree g rootPly) (K d : Nat) (hK : leafGrade le ≤ K) (hKd : K + d ≤ 127)
     (p : P) (alpha beta : Score) (st : SState) (hs : Sound g ex le st.tt) (hc : st.cancelAt = none)
     (ha : okN (K + d) alpha) (hb : okN (K + d) beta) :
@@ -247,7 +247,7 @@ theorem stored_exact (g : Game P) (ex : Explore) (le : LeafEval) (rootPly : Int)
   fun e he hb0 q hq => stored_exact_on g ex le rootPly hev (closed_everywhere g ex) (hh.on _) (hrf.on _) K d hK hKd
     p trivial alpha beta st (sound_iff_on.1 hs) hc ha hb e he hb0 q trivial hq
 
-theorem transparent (g : Game P) (ex : Explore) (le : LeafEval) (rootPly : Int) (hev : EvalOk g)
+theorem transparent (g : Game P) (ex : P → Explore) (le : LeafEval P) (rootPly : Int) (hev : EvalOk g)
     (hh : HashOK g ex le) (hrf : RootFree g rootPly) (d : Nat) (hd : leafGrade le + d ≤ 127)
     (p : P) (st : SState) (hs : Sound g ex le st.tt) (hc : st.cancelAt = none)
     (st0 : SState) (h0 : st0.tt.slots.size = 0) (hc0 : st0.cancelAt = none) :
@@ -257,12 +257,12 @@ theorem transparent (g : Game P) (ex : Explore) (le : LeafEval) (rootPly : Int) 
   transparent_on g ex le rootPly hev (closed_everywhere g ex) (hh.on _) (hrf.on _) d hd p trivial st
     (sound_iff_on.1 hs) hc st0 h0 hc0
 
-theorem pv_first_best (g : Game P) (ex : Explore) (le : LeafEval) (rootPly : Int) (hev : EvalOk g)
+theorem pv_first_best (g : Game P) (ex : P → Explore) (le : LeafEval P) (rootPly : Int) (hev : EvalOk g)
     (hh : HashOK g ex le) (hrf : RootFree g rootPly) (d : Nat) (hd : leafGrade le + d ≤ 127)
     (p : P) (st : SState) (hs : Sound g ex le st.tt) (hc : st.cancelAt = none) :
     Principal g ex le rootPly d p (alphabeta g ex le rootPly d p negInfScore infScore st).2.1 ∧
     (∀ d' m rest, d = d' + 1 → (alphabeta g ex le rootPly d p negInfScore infScore st).2.1 = m :: rest →
-      ∃ c, g.push p m = some c ∧ ex.pick m = true ∧
+      ∃ c, g.push p m = some c ∧ (ex p).pick m = true ∧
         lift (V g ex le rootPly d' c) = V g ex le rootPly (d' + 1) p) ∧
     (∀ d', d = d' + 1 → g.ply p = rootPly → legalAny g p (g.moves p) = true →
       V g ex le rootPly d p ≠ negInfScore →
@@ -270,7 +270,7 @@ theorem pv_first_best (g : Game P) (ex : Explore) (le : LeafEval) (rootPly : Int
   pv_first_best_on g ex le rootPly hev (closed_everywhere g ex) (hh.on _) (hrf.on _) d hd p trivial st
     (sound_iff_on.1 hs) hc
 
-theorem search_exact (g : Game P) (ex : Explore) (le : LeafEval) (hev : EvalOk g) (hh : HashOK g ex le)
+theorem search_exact (g : Game P) (ex : P → Explore) (le : LeafEval P) (hev : EvalOk g) (hh : HashOK g ex le)
     (p : P) (hrf : RootFree g (g.ply p)) (d : Nat) (hd : leafGrade le + d ≤ 127)
     (st : SState) (hs : Sound g ex le st.tt) (hc : st.cancelAt = none) :
     Sound g ex le (alphaBetaSearch g ex le p d invalidScore invalidScore st).2.tt ∧
@@ -283,7 +283,7 @@ theorem search_exact (g : Game P) (ex : Explore) (le : LeafEval) (hev : EvalOk g
     (sound_iff_on.1 hs) hc
   exact ⟨sound_iff_on.2 h1, h2⟩
 
-theorem sequence (g : Game P) (ex : Explore) (le : LeafEval) (hev : EvalOk g) (hh : HashOK g ex le)
+theorem sequence (g : Game P) (ex : P → Explore) (le : LeafEval P) (hev : EvalOk g) (hh : HashOK g ex le)
     (l : List (P × Nat)) (st : SState) (hs : Sound g ex le st.tt) (hc : st.cancelAt = none)
     (hall : ∀ pd ∈ l, RootFree g (g.ply pd.1) ∧ leafGrade le + pd.2 ≤ 127) :
     (searchSeq g ex le l st).1.map (fun o => o.map (·.score)) =
@@ -294,7 +294,7 @@ theorem sequence (g : Game P) (ex : Explore) (le : LeafEval) (hev : EvalOk g) (h
   exact ⟨h1, sound_iff_on.2 h2, h3⟩
 
 /-- `sequence` when no draw can be claimed anywhere in the game. -/
-theorem sequence_noDraw (g : Game P) (ex : Explore) (le : LeafEval) (hev : EvalOk g) (hh : HashOK g ex le)
+theorem sequence_noDraw (g : Game P) (ex : P → Explore) (le : LeafEval P) (hev : EvalOk g) (hh : HashOK g ex le)
     (hnd : NoDraw g) (l : List (P × Nat)) (st : SState) (hs : Sound g ex le st.tt) (hc : st.cancelAt = none)
     (hall : ∀ pd ∈ l, leafGrade le + pd.2 ≤ 127) :
     (searchSeq g ex le l st).1.map (fun o => o.map (·.score)) =
@@ -302,14 +302,14 @@ theorem sequence_noDraw (g : Game P) (ex : Explore) (le : LeafEval) (hev : EvalO
   (sequence g ex le hev hh l st hs hc (fun pd hpd => ⟨hnd.rootFree _, hall pd hpd⟩)).1
 
 /-- Under `RootFree` the value is determined by the position: the `rootPly` argument of `V` is irrelevant. -/
-theorem V_root_irrelevant (g : Game P) (ex : Explore) (le : LeafEval) (r r' : Int)
+theorem V_root_irrelevant (g : Game P) (ex : P → Explore) (le : LeafEval P) (r r' : Int)
     (h : RootFree g r) (h' : RootFree g r') (d : Nat) (p : P) : V g ex le r d p = V g ex le r' d p := by
   rw [V_eq_V' ex le h, V_eq_V' ex le h']
 
 /-! ## Non-vacuity: the tiny game of C13 with a real table (`TTState.new 64`: two slots) -/
 
 open C13 in
-theorem tiny_hashOK (le : LeafEval) : HashOK tiny allMoves le :=
+theorem tiny_hashOK (le : LeafEval Nat) : HashOK tiny allMoves le :=
   hashOK_of_injective allMoves le (fun _ _ h => h)
 
 open C13 in
@@ -394,10 +394,10 @@ exploration of the quiescence search (`Morlock/Proofs/ABChessTree.lean`). The re
 section Chess
 
 /-- All hypotheses of the `…_on` theorems hold for the search of `wS` to depth 2 (every leaf evaluation). -/
-example (le : LeafEval) : EvalOk gX ∧ Closed gX fullExploration (Tree gX fullExploration wS 2) ∧
-    Tree gX fullExploration wS 2 2 wS ∧ HashOKOn gX fullExploration le (Tree gX fullExploration wS 2) ∧
-    RootFreeOn gX (Tree gX fullExploration wS 2) (gX.ply wS) ∧
-    SoundOn gX fullExploration le (Tree gX fullExploration wS 2) st4k.tt ∧ st4k.tt.slots.size = 128 :=
+example (le : LeafEval World) : EvalOk gX ∧ Closed gX fullX (Tree gX fullX wS 2) ∧
+    Tree gX fullX wS 2 2 wS ∧ HashOKOn gX fullX le (Tree gX fullX wS 2) ∧
+    RootFreeOn gX (Tree gX fullX wS 2) (gX.ply wS) ∧
+    SoundOn gX fullX le (Tree gX fullX wS 2) st4k.tt ∧ st4k.tt.slots.size = 128 :=
   ⟨gX_evalOk, tree_closed _ _ _ _, tree_root _ _ _ _, wS_hashOK le, wS_noDraw.rootFreeOn _,
     fresh_sound_on _ _ _ _ 4096 0, by decide +kernel⟩
 
@@ -406,66 +406,66 @@ example (le : LeafEval) : EvalOk gX ∧ Closed gX fullExploration (Tree gX fullE
     and is not drawn satisfies `RootFreeOn` for the root's ply - the ply grows with every move. So on the chess game the
     only hypothesis of C11 / C12 that is not discharged once and for all is `HashOKOn` (a property of the Zobrist
     table on the tree: no two positions of the tree at the same remaining depth with equal hashes and different values). -/
-theorem chess_rootFreeOn (z : ZTable) (ev : Position → Model.Color → Int) (ex : Explore) {w : World} (h : Inv w)
+theorem chess_rootFreeOn (z : ZTable) (ev : Position → Model.Color → Int) (ex : World → Explore) {w : World} (h : Inv w)
     (hd : (boardGame z ev).isDraw w = false) (d : Nat) :
     RootFreeOn (boardGame z ev) (Tree (boardGame z ev) ex w d) ((boardGame z ev).ply w) :=
   boardGame_rootFreeOn z ev ex h hd d
 
-example (d : Nat) : RootFreeOn gX (Tree gX fullExploration wE d) (gX.ply wE) :=
-  chess_rootFreeOn Proofs.exZ (fun pos turn => f32keyOfInt (materialPawns pos turn)) fullExploration wE_inv wE_notDraw d
+example (d : Nat) : RootFreeOn gX (Tree gX fullX wE d) (gX.ply wE) :=
+  chess_rootFreeOn Proofs.exZ (fun pos turn => f32keyOfInt (materialPawns pos turn)) fullX wE_inv wE_notDraw d
 
 /-- `sound_preserved_on` / `stored_exact_on`: window (mated in 2, +5), static leaves. -/
 example :
-    SoundOn gX fullExploration .static (Tree gX fullExploration wS 2)
-      (alphabeta gX fullExploration .static 1 2 wS (mateInXScore (-2)) (heuristicScore 5) st4k).2.2.tt ∧
-    Clip (rank (mateInXScore (-2))) (rank (heuristicScore 5)) (rank (V gX fullExploration .static 1 2 wS))
-      (rank (alphabeta gX fullExploration .static 1 2 wS (mateInXScore (-2)) (heuristicScore 5) st4k).1) ∧
-    ∀ e, some e ∈ (alphabeta gX fullExploration .static 1 2 wS (mateInXScore (-2)) (heuristicScore 5) st4k).2.2.tt.slots →
-      e.bound = 0 → ∀ q, Tree gX fullExploration wS 2 e.depth q → gX.hash q = e.hash →
-        e.score = V gX fullExploration .static 1 e.depth q :=
-  have h := sound_preserved_on gX fullExploration .static 1 gX_evalOk (tree_closed _ _ _ _) (wS_hashOK _)
+    SoundOn gX fullX .static (Tree gX fullX wS 2)
+      (alphabeta gX fullX .static 1 2 wS (mateInXScore (-2)) (heuristicScore 5) st4k).2.2.tt ∧
+    Clip (rank (mateInXScore (-2))) (rank (heuristicScore 5)) (rank (V gX fullX .static 1 2 wS))
+      (rank (alphabeta gX fullX .static 1 2 wS (mateInXScore (-2)) (heuristicScore 5) st4k).1) ∧
+    ∀ e, some e ∈ (alphabeta gX fullX .static 1 2 wS (mateInXScore (-2)) (heuristicScore 5) st4k).2.2.tt.slots →
+      e.bound = 0 → ∀ q, Tree gX fullX wS 2 e.depth q → gX.hash q = e.hash →
+        e.score = V gX fullX .static 1 e.depth q :=
+  have h := sound_preserved_on gX fullX .static 1 gX_evalOk (tree_closed _ _ _ _) (wS_hashOK _)
     (wS_noDraw.rootFreeOn 1) 0 2 (by decide) (by decide) wS (tree_root _ _ _ _) (mateInXScore (-2)) (heuristicScore 5)
     st4k (fresh_sound_on _ _ _ _ 4096 0) rfl (by decide) (by decide)
   ⟨h.1, h.2.2.2.2.1 (by decide),
-   stored_exact_on gX fullExploration .static 1 gX_evalOk (tree_closed _ _ _ _) (wS_hashOK _)
+   stored_exact_on gX fullX .static 1 gX_evalOk (tree_closed _ _ _ _) (wS_hashOK _)
     (wS_noDraw.rootFreeOn 1) 0 2 (by decide) (by decide) wS (tree_root _ _ _ _) (mateInXScore (-2)) (heuristicScore 5)
     st4k (fresh_sound_on _ _ _ _ 4096 0) rfl (by decide) (by decide)⟩
 
 /-- `transparent_on`, with quiescence leaves (the driver's `full-quiet` configuration: captures only, fuel 64). -/
 example :
-    (alphabeta gX fullExploration (.quiescence capX 64) 1 2 wS negInfScore infScore st4k).1 =
-      V gX fullExploration (.quiescence capX 64) 1 2 wS ∧
-    (alphabeta gX fullExploration (.quiescence capX 64) 1 2 wS negInfScore infScore st4k).1 =
-      (alphabeta gX fullExploration (.quiescence capX 64) 1 2 wS negInfScore infScore {}).1 :=
-  transparent_on gX fullExploration _ 1 gX_evalOk (tree_closed _ _ _ _) (wS_hashOK _) (wS_noDraw.rootFreeOn 1) 2
+    (alphabeta gX fullX (.quiescence capX 64) 1 2 wS negInfScore infScore st4k).1 =
+      V gX fullX (.quiescence capX 64) 1 2 wS ∧
+    (alphabeta gX fullX (.quiescence capX 64) 1 2 wS negInfScore infScore st4k).1 =
+      (alphabeta gX fullX (.quiescence capX 64) 1 2 wS negInfScore infScore {}).1 :=
+  transparent_on gX fullX _ 1 gX_evalOk (tree_closed _ _ _ _) (wS_hashOK _) (wS_noDraw.rootFreeOn 1) 2
     (by decide) wS (tree_root _ _ _ _) st4k (fresh_sound_on _ _ _ _ 4096 0) rfl {} rfl rfl
 
 set_option maxRecDepth 100000 in
 /-- `pv_first_best_on`: the PV is principal, and not empty (the value of `wS` at depth 2 is 0, not `negInf`). -/
 example :
-    Principal gX fullExploration .static 1 2 wS
-      (alphabeta gX fullExploration .static 1 2 wS negInfScore infScore st4k).2.1 ∧
-    (alphabeta gX fullExploration .static 1 2 wS negInfScore infScore st4k).2.1 ≠ [] :=
-  have h := pv_first_best_on gX fullExploration .static 1 gX_evalOk (tree_closed _ _ _ _) (wS_hashOK _)
+    Principal gX fullX .static 1 2 wS
+      (alphabeta gX fullX .static 1 2 wS negInfScore infScore st4k).2.1 ∧
+    (alphabeta gX fullX .static 1 2 wS negInfScore infScore st4k).2.1 ≠ [] :=
+  have h := pv_first_best_on gX fullX .static 1 gX_evalOk (tree_closed _ _ _ _) (wS_hashOK _)
     (wS_noDraw.rootFreeOn 1) 2 (by decide) wS (tree_root _ _ _ _) st4k (fresh_sound_on _ _ _ _ 4096 0) rfl
   ⟨h.1, h.2.2 1 rfl wS_ply wS_legal (by decide +kernel)⟩
 
 /-- `search_exact_on` on `wE` (depth 1, quiescence leaves): castling, en passant, promotions and captures occur. -/
 example : ∃ n pv,
-    (alphaBetaSearch gX fullExploration (.quiescence capX 64) wE 1 invalidScore invalidScore st4k).1 =
-      some ⟨n, V gX fullExploration (.quiescence capX 64) (gX.ply wE) 1 wE, pv⟩ ∧
-    Principal gX fullExploration (.quiescence capX 64) (gX.ply wE) 1 wE pv :=
-  have h := (search_exact_on gX fullExploration (.quiescence capX 64) gX_evalOk (tree_closed _ _ wE 1) (wE_hashOK _) wE
+    (alphaBetaSearch gX fullX (.quiescence capX 64) wE 1 invalidScore invalidScore st4k).1 =
+      some ⟨n, V gX fullX (.quiescence capX 64) (gX.ply wE) 1 wE, pv⟩ ∧
+    Principal gX fullX (.quiescence capX 64) (gX.ply wE) 1 wE pv :=
+  have h := (search_exact_on gX fullX (.quiescence capX 64) gX_evalOk (tree_closed _ _ wE 1) (wE_hashOK _) wE
     (wE_noDraw.rootFreeOn _) 1 (by decide) (tree_root _ _ _ _) st4k (fresh_sound_on _ _ _ _ 4096 0) rfl).2.2
   let ⟨n, pv, h1, h2, _⟩ := h
   ⟨n, pv, h1, h2⟩
 
 /-- `sequence_trees`: iterative deepening on `wS` (depths 1, 2), the depth-2 search repeated, then a search of the
     successor position `w1`, all threading one table: every score is the reference value. -/
-example : (searchSeq gX fullExploration .static seqX st4k).1.map (fun o => o.map (·.score)) =
-    [some (V gX fullExploration .static (gX.ply wS) 1 wS), some (V gX fullExploration .static (gX.ply wS) 2 wS),
-     some (V gX fullExploration .static (gX.ply wS) 2 wS), some (V gX fullExploration .static (gX.ply w1) 1 w1)] :=
-  (sequence_trees gX fullExploration .static gX_evalOk seqX (seqX_hashOK _) seqX_noDraw st4k
+example : (searchSeq gX fullX .static seqX st4k).1.map (fun o => o.map (·.score)) =
+    [some (V gX fullX .static (gX.ply wS) 1 wS), some (V gX fullX .static (gX.ply wS) 2 wS),
+     some (V gX fullX .static (gX.ply wS) 2 wS), some (V gX fullX .static (gX.ply w1) 1 w1)] :=
+  (sequence_trees gX fullX .static gX_evalOk seqX (seqX_hashOK _) seqX_noDraw st4k
     (fresh_sound_on _ _ _ _ 4096 0) rfl (by
       intro pd hpd
       simp only [seqX, List.mem_cons, List.mem_nil_iff, or_false] at hpd
@@ -474,9 +474,9 @@ example : (searchSeq gX fullExploration .static seqX st4k).1.map (fun o => o.map
 set_option maxRecDepth 100000 in
 /-- What actually happens in that sequence: the table is written (5 slots used) and read - the repeated depth-2
     search needs 15 nodes instead of 24 and its PV is cut short by a table hit below the root. -/
-example : (searchSeq gX fullExploration .static seqX st4k).1.map (fun o => o.map fun r => (r.nodes, r.score, r.pv.length)) =
+example : (searchSeq gX fullX .static seqX st4k).1.map (fun o => o.map fun r => (r.nodes, r.score, r.pv.length)) =
       [some (9, zeroScore, 1), some (24, zeroScore, 2), some (15, zeroScore, 1), some (9, zeroScore, 1)] ∧
-    (searchSeq gX fullExploration .static seqX st4k).2.tt.used = 5 := by
+    (searchSeq gX fullX .static seqX st4k).2.tt.used = 5 := by
   decide +kernel
 
 end Chess
